@@ -171,4 +171,49 @@ theorem next_parallel_src_eq_model (fuel : Nat) (it : Thick.ParallelsIterator) (
   | none => rfl
   | some r => cases r <;> rfl
 
+/-- **`ParallelsIterator::new` (regenerated) = the hand model**, every line, thickness and stroke offset; `fuel` is the
+hand model's loop bound `loopFuel` (the skipped centre line never needs more: `thick_points_total`). -/
+theorem ParallelsIterator_new_src_eq_model (l : Line) (t : Int) (so : Thick.StrokeOffset) :
+    ThickSrc.ParallelsIterator_new loopFuel l t so = ParallelsIterator.new l t so := by
+  unfold ThickSrc.ParallelsIterator_new ParallelsIterator.new ParallelsIterator.nextParallel
+  simp only [next_parallel_src_eq_model, BresenhamParameters_new_src_eq_model, Line_perpendicular_src_eq_model,
+    Line_delta_src_eq_model, length_squared_src_eq_model, Point_neg_src_eq_model, Bresenham_new_src_eq_model,
+    LineSide_swap_src_eq_model, HORIZONTAL_LINE_src_eq_model]
+  thick_simp [int_sq, tdiv_two]
+  by_cases h : l.start = l.stop
+  · simp only [h, decide_true, ↓reduceIte]
+    cases so <;> (split <;> rename_i hx <;> rw [hx])
+  · simp only [h, decide_false, ↓reduceIte, Bool.false_eq_true]
+    cases so <;> (split <;> rename_i hx <;> rw [hx])
+
+/-- **`Iterator::next` of `ParallelsIterator` (regenerated) = the hand model**: the `i64` threshold test
+`i64::from(acc).pow(2) > threshold`, one `next_parallel`, the accumulator update per `Normal` / `Extra`, the side swap. -/
+theorem ParallelsIterator_next_src_eq_model (it : Thick.ParallelsIterator) :
+    ThickSrc.ParallelsIterator_Iterator_next loopFuel it = it.next := by
+  unfold ThickSrc.ParallelsIterator_Iterator_next ParallelsIterator.next ParallelsIterator.nextParallel
+  simp only [next_parallel_src_eq_model, Bresenham_with_initial_error_src_eq_model, LineSide_swap_src_eq_model]
+  thick_simp [int_sq]
+  by_cases h : it.thicknessAccumulator * it.thicknessAccumulator > it.thicknessThreshold
+  · simp only [h, decide_true, ↓reduceIte]
+  · simp only [h, decide_false, ↓reduceIte, Bool.false_eq_true]
+    cases hx : ParallelsIterator.nextParallelFuel loopFuel it it.nextSide with
+    | none => rfl
+    | some r =>
+      obtain ⟨⟨point, error⟩, it'⟩ := r
+      cases point with
+      | normal p =>
+        simp only
+        by_cases hs : it'.strokeOffset = Thick.StrokeOffset.none <;> simp [hs]
+      | extra p =>
+        simp only
+        by_cases hs : it'.strokeOffset = Thick.StrokeOffset.none <;> simp [hs]
+
+/-- `ThickPoints::new` (regenerated) = the hand model. -/
+theorem ThickPoints_new_src_eq_model (l : Line) (t : Int) :
+    ThickSrc.ThickPoints_new loopFuel l t = ThickPointsIt.new l t := by
+  unfold ThickSrc.ThickPoints_new ThickPointsIt.new
+  simp only [ParallelsIterator_new_src_eq_model, Bresenham_new_src_eq_model, major_length_src_eq_model]
+  thick_simp []
+  cases ParallelsIterator.new l t Thick.StrokeOffset.none <;> rfl
+
 end EG.C17.Src
